@@ -12,3 +12,4 @@ import Rp2.Props.C04
 #print axioms Rp2.C04.parts_add_to_whole
 #print axioms Rp2.C04.two_roundings_bound
 #print axioms Rp2.C04.round_half_even_err
+#print axioms Rp2.C04.decimal_context
